@@ -51,14 +51,14 @@ def run(chk):
         init = [f"put {lit} into X"] if lit else ["rock X with \"a\", \"b\"", "let X at \"k\" be \"c\""]
         cases.append({"src": "\n".join(init + [f"{op} X{wth}", "say X"]) + "\n", "meta": op + " in place"})
         cases.append({"src": "\n".join(init + [f"{op} X into Y{wth}", "say X", "say Y"]) + "\n", "meta": op + " into"})
-        cases.append({"src": "\n".join(init + ["rock A with 0", "let A at 1 be X", f"{op} A at 1{wth}", "say A at 1", "say X"]) + "\n", "meta": op + " subscript"})
-        cases.append({"src": "\n".join(init + ["rock A with 0", f"{op} X into A at 2{wth}", "say A at 2", "say A", "say X"]) + "\n", "meta": op + " into subscript"})
+        cases.append({"src": "\n".join(init + ["rock Apex with 0", "let Apex at 1 be X", f"{op} Apex at 1{wth}", "say Apex at 1", "say X"]) + "\n", "meta": op + " subscript"})
+        cases.append({"src": "\n".join(init + ["rock Apex with 0", f"{op} X into Apex at 2{wth}", "say Apex at 2", "say A", "say X"]) + "\n", "meta": op + " into subscript"})
         cases.append({"src": "\n".join(init + [f"{op} it{wth}", "say X", "say it"]) + "\n", "meta": op + " pronoun"})
         cases.append({"src": "\n".join(init + [f"{op} X into it{wth}", "say X"]) + "\n", "meta": op + " into pronoun"})
     for d in ("up", "down", "round", "around"):
         for v in ("2.5", "-2.5", "0.4", "-0.4", "\"s\"", "null", "1e300"):
             cases.append({"src": f"put {v} into X\nturn {d} X\nsay X\nturn it {d}\nsay X\n", "meta": "turn"})
-            cases.append({"src": f"rock A with {v}, 7.25\nrock Idx with 0, 1\nturn A at roll Idx {d}\nsay A at 0\nsay A at 1\nsay Idx\n", "meta": "turn subscript with effect"})
+            cases.append({"src": f"rock Apex with {v}, 7.25\nrock Idx with 0, 1\nturn Apex at roll Idx {d}\nsay Apex at 0\nsay Apex at 1\nsay Idx\n", "meta": "turn subscript with effect"})
     cases += [{"src": c["src"], "meta": c.get("note")} for c in corpus_cases("exec")]
     recs = execsuite.run(chk, cases, "stmt", suite_name="EXEC-mutations")
     record_exec(chk, recs, sig=lambda r: (r["case"].get("meta"), r["impl"].get("debug", "")[:80]))
